@@ -18,7 +18,7 @@ use crate::{arg_usize, lens_of, load_shape};
 
 type Scheme = KZGCommitmentScheme<Bls12>;
 
-fn wit(p: usize, c: usize, r: usize) -> Fq {
+pub fn wit(p: usize, c: usize, r: usize) -> Fq {
     Fq::from((1000 + 97 * p + 13 * c + r) as u64)
 }
 
@@ -30,15 +30,17 @@ pub fn run(a: &HashMap<String, String>) -> Value {
     let lens = lens_of(a, shape.ninst);
     let mut rng = rand_chacha_like(arg_usize(a, "seed", 1) as u64);
     let params = ParamsKZG::<Bls12>::unsafe_setup(k, &mut rng);
-    let empty = ShapeCircuit::<Fq> { shape: shape.clone(), proof_idx: 0, gen: None, inst: vec![] };
+    let empty = ShapeCircuit::<Fq> { shape: shape.clone(), proof_idx: 0, gen: None, inst: vec![], cheat: None };
     let vk = keygen_vk_with_k::<Fq, Scheme, _>(&params, &empty, k).expect("keygen_vk");
     let pk = keygen_pk::<Fq, Scheme, _>(vk.clone(), &empty).expect("keygen_pk");
     // instance values: given (inst=hex:hex;...|...) or deterministic
     let inst: Vec<Vec<Vec<Fq>>> = (0..np)
         .map(|i| lens.iter().enumerate().map(|(c, l)| (0..*l).map(|j| Fq::from((5 + 31 * i + 7 * c + j) as u64)).collect()).collect())
         .collect();
+    // cheat=<i>: the witness violates the tie of copy entry i (value off by one); everything else is honest
+    let cheat: Option<usize> = a.get("cheat").map(|v| v.parse().unwrap());
     let circuits: Vec<ShapeCircuit<Fq>> =
-        (0..np).map(|i| ShapeCircuit { shape: shape.clone(), proof_idx: i, gen: Some(wit), inst: inst[i].clone() }).collect();
+        (0..np).map(|i| ShapeCircuit { shape: shape.clone(), proof_idx: i, gen: Some(wit), inst: inst[i].clone(), cheat }).collect();
     // the assignment is honest: the repository's own constraint checker accepts it
     let mock: Vec<String> = circuits
         .iter()
